@@ -450,4 +450,56 @@ void rcu_list<T, M, Alloc>::emplace_back"""}]},
     {"name": "lr-writer-waits-wrong-counter", "props": ["C14"], "edits": [{"file": "gmlc/libguarded/lr_guarded.hpp",
         "old": "    m_countingLeft.store(!local_countingLeft);\n\n    if (local_countingLeft) {\n        while (m_leftReadCount.load() != 0) {",
         "new": "    if (local_countingLeft) {\n        while (m_leftReadCount.load() != 0) {"}]},
+
+    # ---------------------------------------------------------------- containers
+    {"name": "dd-callbacks-under-lock", "props": ["C16"], "edits": [{"file": "gmlc/concurrency/DelayedDestructor.hpp",
+        "old": "                    auto deleteFunc = callBeforeDeleteFunction;\n                    lock.unlock();\n                    // this needs to be done after the lock, so a destructor\n                    // can never called while under the lock\n                    if (deleteFunc) {\n                        for (auto& element : ecall) {\n                            deleteFunc(element);\n                        }\n                    }\n                    ecall.clear();  // make sure the destructors get called\n                                    // before returning.",
+        "new": "                    auto deleteFunc = callBeforeDeleteFunction;\n                    if (deleteFunc) {\n                        for (auto& element : ecall) {\n                            deleteFunc(element);\n                        }\n                    }\n                    ecall.clear();\n                    lock.unlock();"}]},
+    {"name": "dd-select-shared", "props": ["C16"], "edits": [{"file": "gmlc/concurrency/DelayedDestructor.hpp",
+        "old": "                    if (element.use_count() == 1) {\n                        ecall.push_back(element);\n                        epointers.emplace_back(element.get());\n                    }\n                }\n                if (!epointers.empty()) {\n                    // so apparently remove_if can actually call the\n                    // destructor for shared_ptrs so the call function needs\n                    // to be before this call\n                    auto loc =\n                        std::remove_if(ElementsToBeDestroyed.begin(),\n                                       ElementsToBeDestroyed.end(),\n                                       [&epointers](const auto& element) {\n                                           return (\n                                               (element.use_count() == 2) &&",
+        "new": "                    if (element.use_count() <= 2) {\n                        ecall.push_back(element);\n                        epointers.emplace_back(element.get());\n                    }\n                }\n                if (!epointers.empty()) {\n                    // so apparently remove_if can actually call the\n                    // destructor for shared_ptrs so the call function needs\n                    // to be before this call\n                    auto loc =\n                        std::remove_if(ElementsToBeDestroyed.begin(),\n                                       ElementsToBeDestroyed.end(),\n                                       [&epointers](const auto& element) {\n                                           return (\n                                               (element.use_count() >= 2) &&"}]},
+    {"name": "dd-dtor-under-lock", "props": ["C16"], "edits": [{"file": "gmlc/concurrency/DelayedDestructor.hpp",
+        "old": "                    ecall.clear();  // make sure the destructors get called\n                                    // before returning.\n                    // reengage the lock so the size is correct\n                    if (!lock.try_lock_for(wait)) {\n                        return elementSize;\n                    }",
+        "new": "                    // reengage the lock so the size is correct\n                    if (!lock.try_lock_for(wait)) {\n                        return elementSize;\n                    }\n                    ecall.clear();"}]},
+    {"name": "dd-no-final-sweep", "props": ["C16"], "edits": [{"file": "gmlc/concurrency/DelayedDestructor.hpp",
+        "old": "            while (!ElementsToBeDestroyed.empty()) {\n                ++ii;\n                destroyObjects();\n                if (!ElementsToBeDestroyed.empty()) {\n#ifdef ENABLE_TRIPWIRE\n                    // short circuit if the tripline was triggered\n                    if (tripDetect.isTripped()) {\n                        return;\n                    }\n#endif\n                    if (ii > 4) {\n                        destroyObjects();\n                        break;\n                    }\n                    if (ii % 2 == 0) {\n                        std::this_thread::sleep_for(\n                            std::chrono::milliseconds(100));\n                    } else {\n                        std::this_thread::yield();\n                    }\n                }\n            }\n        }\n        catch (...) {\n        }\n    }\n    DelayedDestructor(DelayedDestructor&&) noexcept = delete;",
+        "new": "            for (auto& e : ElementsToBeDestroyed) {\n                (void)e.release();\n            }\n        }\n        catch (...) {\n        }\n    }\n    DelayedDestructor(DelayedDestructor&&) noexcept = delete;"}]},
+    {"name": "dd-single-callback-twice", "props": ["C16"], "edits": [{"file": "gmlc/concurrency/DelayedDestructor.hpp",
+        "old": "                    // this needs to be done after the lock, so a destructor\n                    // can never called while under the lock\n                    if (deleteFunc) {\n                        for (auto& element : ecall) {\n                            deleteFunc(element);\n                        }\n                    }\n                    ecall.clear();  // make sure the destructors get called\n                    // before returning.",
+        "new": "                    if (deleteFunc) {\n                        for (auto& element : ecall) {\n                            deleteFunc(element);\n                        }\n                        if (ecall.size() > 2) {\n                            deleteFunc(ecall.front());\n                        }\n                    }\n                    ecall.clear();"}]},
+    {"name": "soh-remove-keeps-tags", "props": ["C17"], "edits": [{"file": "gmlc/concurrency/SearchableObjectHolder.hpp",
+        "old": "            objectMap.erase(fnd);\n            auto fnd2 = typeMap.find(name);\n            if (fnd2 != typeMap.end()) {\n                typeMap.erase(fnd2);\n            }\n            return true;",
+        "new": "            objectMap.erase(fnd);\n            return true;"}]},
+    {"name": "soh-add-replaces", "props": ["C17"], "edits": [{"file": "gmlc/concurrency/SearchableObjectHolder.hpp",
+        "old": "        std::lock_guard<std::mutex> lock(mapLock);\n        auto res = objectMap.emplace(name, std::move(obj));\n        return res.second;\n    }",
+        "new": "        std::lock_guard<std::mutex> lock(mapLock);\n        auto fnd = objectMap.find(name);\n        bool isNew = (fnd == objectMap.end());\n        objectMap[name] = std::move(obj);\n        return isNew;\n    }"}]},
+    {"name": "soh-copy-drops-tags", "props": ["C17"], "edits": [{"file": "gmlc/concurrency/SearchableObjectHolder.hpp",
+        "old": "                if (fnd2 != typeMap.end()) {\n                    typeMap.emplace(copyToName, fnd2->second);\n                }",
+        "new": "                (void)fnd2;"}]},
+    {"name": "soh-findtype-ignores-type", "props": ["C17"], "edits": [{"file": "gmlc/concurrency/SearchableObjectHolder.hpp",
+        "old": "                                                if (t == type) {\n                                                    return true;\n                                                }",
+        "new": "                                                (void)t;\n                                                return true;"}]},
+    {"name": "soh-original-defect", "props": ["C17"], "edits": [{"file": "gmlc/concurrency/SearchableObjectHolder.hpp",
+        "old": "                // look the tags up before the entry (and its key) is erased\n                auto fnd2 = typeMap.find(obj->first);\n                if (fnd2 != typeMap.end()) {\n                    typeMap.erase(fnd2);\n                }\n                objectMap.erase(obj);\n                return true;",
+        "new": "                objectMap.erase(obj);\n                auto fnd2 = typeMap.find(obj->first);\n                if (fnd2 != typeMap.end()) {\n                    typeMap.erase(fnd2);\n                }\n                return true;"}]},
+    {"name": "soh-removep-keeps-tags", "props": ["C17"], "edits": [{"file": "gmlc/concurrency/SearchableObjectHolder.hpp",
+        "old": "                auto fnd2 = typeMap.find(obj->first);\n                if (fnd2 != typeMap.end()) {\n                    typeMap.erase(fnd2);\n                }\n                objectMap.erase(obj);\n                return true;",
+        "new": "                objectMap.erase(obj);\n                return true;"}]},
+    {"name": "do-set-drops-promise", "props": ["C18"], "edits": [{"file": "gmlc/concurrency/DelayedObjects.hpp",
+        "old": "            fnd->second.set_value(val);\n            usedPromiseByInteger[index] = std::move(fnd->second);\n            promiseByInteger.erase(fnd);",
+        "new": "            fnd->second.set_value(val);\n            promiseByInteger.erase(fnd);"}]},
+    {"name": "do-set-keeps-pending", "props": ["C18"], "edits": [{"file": "gmlc/concurrency/DelayedObjects.hpp",
+        "old": "            fnd->second.set_value(std::move(val));\n            usedPromiseByString[name] = std::move(fnd->second);\n            promiseByString.erase(fnd);",
+        "new": "            fnd->second.set_value(std::move(val));"}]},
+    {"name": "do-dtor-no-fulfil", "props": ["C18"], "edits": [{"file": "gmlc/concurrency/DelayedObjects.hpp",
+        "old": "        for (auto& obj : promiseByString) {\n            obj.second.set_value(X{});\n        }\n    }",
+        "new": "    }"}]},
+    {"name": "do-fulfil-no-clear", "props": ["C18"], "edits": [{"file": "gmlc/concurrency/DelayedObjects.hpp",
+        "old": "        promiseByInteger.clear();\n        promiseByString.clear();", "new": "        promiseByString.clear();"}]},
+    {"name": "do-fulfil-skips-strings", "props": ["C18"], "edits": [{"file": "gmlc/concurrency/DelayedObjects.hpp",
+        "old": "        for (auto& pr : promiseByString) {\n            pr.second.set_value(val);\n            usedPromiseByString[pr.first] = std::move(pr.second);\n        }\n        promiseByInteger.clear();\n        promiseByString.clear();",
+        "new": "        promiseByInteger.clear();"}]},
+    {"name": "do-iscompleted-wrong-map", "props": ["C18"], "edits": [{"file": "gmlc/concurrency/DelayedObjects.hpp",
+        "old": "        auto fnd = usedPromiseByString.find(name);\n        return (fnd != usedPromiseByString.end());",
+        "new": "        auto fnd = promiseByString.find(name);\n        return (fnd == promiseByString.end());"}]},
 ]
